@@ -39,6 +39,9 @@ run_part "$BUILD/verifsim" C10 clisim-c10 "$N2"
 run_part "$BUILD/verifsim" C13 clisim-c13-apply "$N2"
 run_part "$BUILD/verifsim" C13 clisim-c13-schema "$N2"
 run_part "$BUILD/verifsim" C13 clisim-c13-dryrun "$N2"
+run_part "$BUILD/verifsim" C13 clisim-c13-commit "$N2"
+run_part "$BUILD/verifsim" C13 clisim-c13-baseline "$N2"
+run_part "$BUILD/verifsim" C09 clisim-c09-busy "$N2"
 run_part "$BUILD/verifsim" C11 clisim-c11 "$N2"
 run_part "$BUILD/verifsim" C12 clisim-c12 "$N2"
 run_part "$BUILD/verifsim" C06 clisim-c06 "$N2"
